@@ -66,6 +66,8 @@ theorem ws_nil : ws [] = some ((), []) := rfl
 
 inductive S where
   | leaf (t : Item)
+  /-- an unsigned decimal integer literal (a `Digits` token whose text reads as `v`) -/
+  | num (t : Item) (v : Nat)
   | un (op : Item) (neg : Bool) (p : S)
   | bin (row : Gen.PrecRow) (op : Item) (l r : S)
   | paren (lp rp : Item) (s : S)
@@ -74,6 +76,7 @@ namespace S
 
 def toks : S → List Item
   | leaf t => [t]
+  | num t _ => [t]
   | un op _ p => op :: p.toks
   | bin _ op l r => l.toks ++ op :: r.toks
   | paren lp rp s => lp :: (s.toks ++ [rp])
@@ -81,17 +84,20 @@ def toks : S → List Item
 /-- the tree the grammar actions build (parentheses leave no node) -/
 def sx : S → Sx
   | leaf t => .t "LateBound" [.n "LateBound" [("name", .a (txt t))]]
+  | num _ v => .t "Const" [.t "IntegerLiteral" [.n "IntegerLiteral" [("value", sxSigned v false), ("data_type", Sx.none')]]]
   | un _ neg p => .t "UnaryOp" [.n "UnaryExpr" [("op", .a (if neg then "Neg" else "Not")), ("term", p.sx)]]
   | bin row _ l r => applyOp row l.sx r.sx
   | paren _ _ s => s.sx
 
 def isPrimary : S → Bool
   | leaf _ => true
+  | num .. => true
   | paren .. => true
   | _ => false
 
 def WF : Nat → S → Prop
   | _, leaf t => t.ty = "Identifier"
+  | _, num t v => t.ty = "Digits" ∧ integerNew t.text = some v
   | _, un op neg p => op.ty = (if neg then "Minus" else "Not") ∧ p.isPrimary = true ∧ WF 0 p
   | c, bin row op l r => row ∈ Gen.prec ∧ op.ty = row.token ∧ c ≤ row.level ∧ WF row.level l ∧ WF (row.level + 1) r
   | _, paren lp rp s => lp.ty = "LeftParen" ∧ rp.ty = "RightParen" ∧ WF 0 s
@@ -104,6 +110,7 @@ def d : S → Nat
 /-- fuel that suffices for `climb` on `s.toks` -/
 def need : S → Nat
   | leaf _ => 4
+  | num .. => 4
   | un _ _ p => p.need + 3
   | bin _ _ l r => l.need + r.need + 1
   | paren _ _ s => s.need + 5
@@ -111,6 +118,7 @@ def need : S → Nat
 theorem d_le_need (s : S) : s.d ≤ s.need := by
   induction s with
   | leaf t => simp [d, need]
+  | num t v => simp [d, need]
   | un op neg p ih => simp [d, need]
   | bin row op l r ihl ihr => simp [d, need]; omega
   | paren lp rp s ih => simp [d, need]
@@ -118,6 +126,7 @@ theorem d_le_need (s : S) : s.d ≤ s.need := by
 theorem need_le (s : S) : s.need ≤ 5 * s.toks.length := by
   induction s with
   | leaf t => simp [need, toks]
+  | num t v => simp [need, toks]
   | un op neg p ih => simp [need, toks]; omega
   | bin row op l r ihl ihr => simp [need, toks]; omega
   | paren lp rp s ih => simp [need, toks]; omega
@@ -283,6 +292,20 @@ theorem primary_leaf (g : Nat) (t : Item) (rest : List Item) (c : Nat) (ht : t.t
     bind_some _ _ _ _ _ (notP_follow hf)]
   rfl
 
+theorem constant_digits (t : Item) (ts : List Item) (v : Nat) (h : t.ty = "Digits") (hv : integerNew t.text = some v) :
+    constant (t :: ts) = some (.t "IntegerLiteral" [.n "IntegerLiteral" [("value", sxSigned v false), ("data_type", Sx.none')]], ts) := by
+  simp [constant, realLiteral, integerLiteral, optType, realTypeName, integerTypeName,
+    signedInteger, integer, binaryInteger, octalInteger, hexInteger,
+    bind_run, orElse_run, opt_run, tok_cons, h, map_run, hv, pure_run]
+
+/-- an unsigned integer literal is a constant -/
+theorem primary_num (g : Nat) (t : Item) (rest : List Item) (v : Nat) (ht : t.ty = "Digits") (hv : integerNew t.text = some v) :
+    primaryExpression (g + 1) (t :: rest) = some (S.sx (.num t v), rest) := by
+  rw [primaryExpression]
+  apply orElse_some
+  rw [bind_some _ _ _ _ _ (constant_digits t rest v ht hv)]
+  rfl
+
 /-- `( expression )` as a primary: the inner expression, no node for the parentheses -/
 theorem primary_paren (g : Nat) (lp rp : Item) (inner rest : List Item) (e : Sx)
     (hlp : lp.ty = "LeftParen") (hrp : rp.ty = "RightParen")
@@ -439,6 +462,7 @@ theorem loop_step (G m : Nat) (lhs rhs : Sx) (row : Gen.PrecRow) (op : Item) (R 
 theorem ws_toks (s : S) : ∀ c rest, s.WF c → ws (s.toks ++ rest) = some ((), s.toks ++ rest) := by
   induction s with
   | leaf t => intro c rest h; exact ws_cons _ _ (by rw [show t.ty = "Identifier" from h]; decide)
+  | num t v => intro c rest h; exact ws_cons _ _ (by rw [h.1]; decide)
   | un op neg p ih =>
     intro c rest h
     have hop : op.ty = (if neg then "Minus" else "Not") := h.1
@@ -483,6 +507,23 @@ theorem main (s : S) :
     have ht : t.ty = "Identifier" := hwf
     have hp := hprim c rest g hwf hf (by simpa using hF)
     have ha : atom (g + 2) (t :: rest) = some ((S.leaf t).sx, rest) :=
+      atom_plain g t rest rest _ (by rw [ht]; decide) (by rw [ht]; decide)
+        (ws_cons _ _ (by rw [ht]; decide)) hp
+    show climb (g + 2 + 1) m (t :: rest) = _
+    rw [climb, bind_some _ _ _ _ _ ha]
+    rfl
+  | num t v =>
+    have hprim : ∀ c rest g, (S.num t v).WF 0 → Fol c rest → (S.num t v).need ≤ g + 3 →
+        primaryExpression g ((S.num t v).toks ++ rest) = some ((S.num t v).sx, rest) := by
+      intro c rest g hwf hf hg
+      obtain ⟨g', rfl⟩ : ∃ g', g = g' + 1 := ⟨g - 1, by simp [S.need] at hg; omega⟩
+      exact primary_num g' t rest v hwf.1 hwf.2
+    refine ⟨?_, fun _ => hprim⟩
+    intro c m rest F hwf hm hf hF
+    obtain ⟨g, rfl⟩ : ∃ g, F = g + 3 := ⟨F - 3, by simp [S.need] at hF; omega⟩
+    have ht : t.ty = "Digits" := hwf.1
+    have hp := hprim c rest g hwf hf (by simpa using hF)
+    have ha : atom (g + 2) (t :: rest) = some ((S.num t v).sx, rest) :=
       atom_plain g t rest rest _ (by rw [ht]; decide) (by rw [ht]; decide)
         (ws_cons _ _ (by rw [ht]; decide)) hp
     show climb (g + 2 + 1) m (t :: rest) = _
@@ -580,6 +621,7 @@ theorem fuelFor_enough (s : S) (n : Nat) (h : s.toks.length ≤ n) : s.need + 1 
 with the token it was / will be written with -/
 inductive E where
   | leaf (t : Item)
+  | num (t : Item) (v : Nat)
   | un (op : Item) (neg : Bool) (e : E)
   | bin (row : Gen.PrecRow) (op : Item) (l r : E)
 
@@ -588,12 +630,14 @@ namespace E
 /-- tokens carry the right types and the operators are rows of the generated table -/
 def Ok : E → Prop
   | leaf t => t.ty = "Identifier"
+  | num t v => t.ty = "Digits" ∧ integerNew t.text = some v
   | un op neg e => op.ty = (if neg then "Minus" else "Not") ∧ Ok e
   | bin row op l r => row ∈ Gen.prec ∧ op.ty = row.token ∧ Ok l ∧ Ok r
 
 /-- the tree of the grammar actions -/
 def sx : E → Sx
   | leaf t => .t "LateBound" [.n "LateBound" [("name", .a (txt t))]]
+  | num _ v => .t "Const" [.t "IntegerLiteral" [.n "IntegerLiteral" [("value", sxSigned v false), ("data_type", Sx.none')]]]
   | un _ neg e => .t "UnaryOp" [.n "UnaryExpr" [("op", .a (if neg then "Neg" else "Not")), ("term", e.sx)]]
   | bin row _ l r => applyOp row l.sx r.sx
 
@@ -601,7 +645,9 @@ def sx : E → Sx
 `c` requires, and around the operand of a unary operator unless it is a name -/
 def pr (lp rp : Item) : Nat → E → S
   | _, leaf t => .leaf t
+  | _, num t v => .num t v
   | _, un op neg (leaf t) => .un op neg (.leaf t)
+  | _, un op neg (num t v) => .un op neg (.num t v)
   | _, un op neg e => .un op neg (.paren lp rp (pr lp rp 0 e))
   | c, bin row op l r =>
     let body := S.bin row op (pr lp rp row.level l) (pr lp rp (row.level + 1) r)
@@ -611,7 +657,9 @@ def pr (lp rp : Item) : Nat → E → S
 when it is itself a unary expression (a binary operand already has its own) -/
 def full (lp rp : Item) : E → S
   | leaf t => .leaf t
+  | num t v => .num t v
   | un op neg (leaf t) => .un op neg (.leaf t)
+  | un op neg (num t v) => .un op neg (.num t v)
   | un op neg (un op' neg' e) => .un op neg (.paren lp rp (full lp rp (un op' neg' e)))
   | un op neg (bin row o l r) => .un op neg (full lp rp (bin row o l r))
   | bin row op l r => .paren lp rp (.bin row op (full lp rp l) (full lp rp r))
@@ -619,10 +667,12 @@ def full (lp rp : Item) : E → S
 theorem pr_sx (lp rp : Item) (e : E) : ∀ c, (pr lp rp c e).sx = e.sx := by
   induction e with
   | leaf t => intro c; rfl
+  | num t v => intro c; rfl
   | un op neg e ih =>
     intro c
     cases e with
     | leaf t => rfl
+    | num t v => rfl
     | un op' neg' e' =>
       show Sx.t "UnaryOp" [.n "UnaryExpr" [("op", _), ("term", (pr lp rp 0 (un op' neg' e')).sx)]] = _
       rw [ih 0]; rfl
@@ -638,10 +688,12 @@ theorem pr_wf (lp rp : Item) (hlp : lp.ty = "LeftParen") (hrp : rp.ty = "RightPa
     e.Ok → ∀ c, (pr lp rp c e).WF c := by
   induction e with
   | leaf t => intro h c; exact h
+  | num t v => intro h c; exact h
   | un op neg e ih =>
     intro h c
     cases e with
     | leaf t => exact ⟨h.1, rfl, h.2⟩
+    | num t v => exact ⟨h.1, rfl, h.2⟩
     | un op' neg' e' => exact ⟨h.1, rfl, hlp, hrp, ih h.2 0⟩
     | bin row o l r => exact ⟨h.1, rfl, hlp, hrp, ih h.2 0⟩
   | bin row op l r ihl ihr =>
@@ -655,9 +707,11 @@ theorem pr_wf (lp rp : Item) (hlp : lp.ty = "LeftParen") (hrp : rp.ty = "RightPa
 theorem full_sx (lp rp : Item) (e : E) : (full lp rp e).sx = e.sx := by
   induction e with
   | leaf t => rfl
+  | num t v => rfl
   | un op neg e ih =>
     cases e with
     | leaf t => rfl
+    | num t v => rfl
     | un op' neg' e' =>
       show Sx.t "UnaryOp" [.n "UnaryExpr" [("op", _), ("term", (full lp rp (un op' neg' e')).sx)]] = _
       rw [ih]; rfl
@@ -670,10 +724,12 @@ theorem full_wf (lp rp : Item) (hlp : lp.ty = "LeftParen") (hrp : rp.ty = "Right
     e.Ok → ∀ c, (full lp rp e).WF c := by
   induction e with
   | leaf t => intro h c; exact h
+  | num t v => intro h c; exact h
   | un op neg e ih =>
     intro h c
     cases e with
     | leaf t => exact ⟨h.1, rfl, h.2⟩
+    | num t v => exact ⟨h.1, rfl, h.2⟩
     | un op' neg' e' => exact ⟨h.1, rfl, hlp, hrp, ih h.2 0⟩
     | bin row o l r => exact ⟨h.1, rfl, ih h.2 0⟩
   | bin row op l r ihl ihr =>
